@@ -172,7 +172,8 @@ CHECKS["C05"] = NS(
         "Hypothesis programs: sources {per-tensor QBytes (3 qtypes x absmax/saturating/coarse/arbitrary scale), per-axis QBytes, "
         "QBits (int2/int4, grouped or not), plain} x dtype, ranks 1-4 dims 1-5; steps drawn from the op tables with integer "
         "selectors resolved at run time; partners (equal-scale companions, fresh quantized/plain operands) are constructed so "
-        "shapes match. Non-trivial: >= 2 executed steps, >= 1 step whose result is still quantized, >= 1 step consuming the result "
+        "shapes match; `contract` enumerates completely the 2-step programs source -> contraction (9 quantized source kinds x ranks 2, 3 x "
+        "square/non-square x 7 contractions x 36 partner kinds x widths x call variants). Non-trivial: >= 2 executed steps, >= 1 step whose result is still quantized, >= 1 step consuming the result "
         "of an earlier step. Distinct by the tuple of (op, operand kinds, result kind) per step."
     ),
     ASSUMPTIONS=[
@@ -181,7 +182,8 @@ CHECKS["C05"] = NS(
         "steps whose float counterpart raises are discarded (float-invalid program), and view() must also be valid on a float twin with the size/stride the wrapper reports",
         "whether a result is still quantized is never asserted: falling back to float is always allowed",
     ],
-    PLAN={"quick": [("alias", 4, {}), ("program", 12, {"n": 1600, "max_steps": 8})], "thorough": [("alias", 4, {}), ("program", 16, {"n": 12000, "max_steps": 12})]},
+    PLAN={"quick": [("alias", 4, {}), ("contract", 8, {}), ("program", 12, {"n": 1600, "max_steps": 8})],
+          "thorough": [("alias", 4, {}), ("contract", 8, {}), ("program", 16, {"n": 12000, "max_steps": 12})]},
 )
 
 CHECKS["C06"] = NS(
